@@ -10,6 +10,22 @@ from values import Interner, dtype_wire, err_class
 
 NSLOTS = 6
 VALS = [0, 1, 2, None, "a", 1.5, True]
+DATES = ["D:2020-01-01", "D:2020-01-02", "D:1999-12-31"]
+DATETIMES = ["T:2020-01-01T10:30:00", "T:2021-05-06T00:00:00"]
+
+
+def dv(x):
+    """decode a spec value: 'D:yyyy-mm-dd' is a date, 'T:...' a datetime (specs must stay JSON)"""
+    import datetime
+    if isinstance(x, str) and x.startswith("D:"):
+        return datetime.date.fromisoformat(x[2:])
+    if isinstance(x, str) and x.startswith("T:"):
+        return datetime.datetime.fromisoformat(x[2:])
+    return x
+
+
+def dvs(xs):
+    return [dv(x) for x in xs]
 NAMES = ["a", "b", "c", "A b", None, "a"]
 
 
@@ -76,9 +92,9 @@ class World:
 # ---------------- step generation ----------------
 
 def rand_vals(rng, n, kind=None):
-    kind = kind or rng.choice(["int", "int", "intnone", "str", "float", "mixed"])
+    kind = kind or rng.choice(["int", "int", "intnone", "str", "float", "mixed", "date", "datenone"])
     pool = {"int": [0, 1, 2, 3], "intnone": [0, 1, 2, None], "str": ["a", "b", "c"], "float": [0.5, 1.5, 2.0],
-            "mixed": VALS, "bool": [True, False]}[kind]
+            "mixed": VALS, "bool": [True, False], "date": DATES, "datenone": DATES + [None, None]}[kind]
     return [rng.choice(pool) for _ in range(n)]
 
 
@@ -223,7 +239,7 @@ def choose_step(rng, w, flavor, last=None):
         r = rng.choice(vecs)
         n = len(w.slots[r])
         key = rand_key(rng, n)
-        val = rng.choice([["scalar", rng.choice(VALS + [5, 7])], ["list", rand_vals(rng, rng.randint(0, 3))]])
+        val = rng.choice([["scalar", rng.choice(VALS + [5, 7] + DATETIMES + DATES[:1])], ["list", rand_vals(rng, rng.randint(0, 3))]])
         return {"op": "write", "r": r, "key": key, "val": val}
     if op == "tabwrite":
         t = rng.choice(tabs)
@@ -234,7 +250,7 @@ def choose_step(rng, w, flavor, last=None):
             return {"op": "gc"}
         if form == "cell":
             return {"op": "tabwrite", "t": t, "form": "cell", "row": rng.randint(-1, n), "col": rng.randrange(nc),
-                    "val": rng.choice(VALS + [9])}
+                    "val": rng.choice(VALS + [9] + DATETIMES + DATES[:1])}
         if form == "row":
             return {"op": "tabwrite", "t": t, "form": "row", "row": rng.randint(0, max(n - 1, 0)),
                     "val": rand_vals(rng, nc if rng.random() < 0.85 else nc + 1, rng.choice(["int", "mixed"]))}
@@ -323,12 +339,12 @@ def run_step(w, st):
     extra = {}
     try:
         if op == "newvec":
-            sl[st["dst"]] = Vector(list(st["vals"]), name=st.get("name"))
+            sl[st["dst"]] = Vector(dvs(st["vals"]), name=st.get("name"))
         elif op == "newtab":
             if st["form"] == "dict":
-                sl[st["dst"]] = Table({nm: list(vals) for nm, vals in st["cols"]})
+                sl[st["dst"]] = Table({nm: dvs(vals) for nm, vals in st["cols"]})
             else:
-                sl[st["dst"]] = Table([Vector(list(vals), name=nm) for nm, vals in st["cols"]])
+                sl[st["dst"]] = Table([Vector(dvs(vals), name=nm) for nm, vals in st["cols"]])
         elif op == "tabfrom":
             sl[st["dst"]] = Table([sl[i] for i in st["srcs"]])
         elif op == "copy":
@@ -358,20 +374,20 @@ def run_step(w, st):
             setattr(t, acc[0], sl[st["src"]])
         elif op == "write":
             v = st["val"]
-            sl[st["r"]][mk_key(st["key"])] = (v[1] if v[0] == "scalar" else list(v[1]))
+            sl[st["r"]][mk_key(st["key"])] = (dv(v[1]) if v[0] == "scalar" else dvs(v[1]))
         elif op == "tabwrite":
             t = sl[st["t"]]
             f = st["form"]
             if f == "cell":
-                t[st["row"], st["col"]] = st["val"]
+                t[st["row"], st["col"]] = dv(st["val"])
             elif f == "row":
-                t[st["row"]] = list(st["val"])
+                t[st["row"]] = dvs(st["val"])
             elif f == "col":
-                t[:, st["col"]] = list(st["val"])
+                t[:, st["col"]] = dvs(st["val"])
             elif f == "rowslice":
-                t[st["start"]:st["stop"]] = st["val"]
+                t[st["start"]:st["stop"]] = dv(st["val"])
             else:
-                t[st["start"]:st["stop"], st["c0"]:st["c1"]] = st["val"]
+                t[st["start"]:st["stop"], st["c0"]:st["c1"]] = dv(st["val"])
         elif op == "setname":
             sl[st["r"]].name = st["name"]
         elif op == "rename":
@@ -381,9 +397,9 @@ def run_step(w, st):
         elif op == "stack":
             sl[st["dst"]] = sl[st["a"]] >> sl[st["b"]]
         elif op == "stackdict":
-            sl[st["dst"]] = sl[st["a"]] >> {st["name"]: list(st["vals"])}
+            sl[st["dst"]] = sl[st["a"]] >> {st["name"]: dvs(st["vals"])}
         elif op == "append":
-            sl[st["dst"]] = sl[st["a"]] << list(st["vals"])
+            sl[st["dst"]] = sl[st["a"]] << dvs(st["vals"])
         elif op == "appendt":
             sl[st["dst"]] = sl[st["a"]] << sl[st["b"]]
         elif op == "T":
